@@ -81,6 +81,7 @@ type Cfg struct {
 	AppHooksFirst    bool     // the application registers its event listeners before it initialises the modules
 	ZoneLessStore    bool     // the storer's timestamp columns keep no zone
 	ClockZone        int      // seconds east of UTC of the server process' local zone (what time.Now() carries)
+	ExpireSetupFirst bool     // expire.Setup is called before Authboss.Init (its event hooks run before the modules')
 	PersistArbitrary bool     // the user type stores every key PutArbitrary hands it (only sensible with an explicit RegWhitelist)
 }
 
@@ -412,10 +413,16 @@ func New(cfg Cfg, salt string) (w *World, err error) {
 		// and once one of them has answered a request the modules' own handlers are called with handled=true
 		registerAppListeners()
 	}
+	if cfg.UseExpire && cfg.ExpireSetupFirst {
+		// expire.Setup before the modules are initialised: its hooks run ahead of the modules' own
+		if err := expire.Setup(ab); err != nil {
+			return nil, err
+		}
+	}
 	if err := ab.Init(cfg.Modules...); err != nil {
 		return nil, err
 	}
-	if cfg.UseExpire {
+	if cfg.UseExpire && !cfg.ExpireSetupFirst {
 		if err := expire.Setup(ab); err != nil {
 			return nil, err
 		}
